@@ -834,4 +834,278 @@ theorem gather_length {α : Type} (l : List α) (ids : List Nat) (h : ∀ i ∈ 
   have := congrArg List.length (gather_eq_map l ids h)
   simpa using this
 
+/-! ### disregistry: plane selection -/
+
+theorem minAbove_none (mid : K) : ∀ (l : List K), minAbove mid l = none → ∀ z ∈ l, ¬ mid < z := by
+  intro l
+  induction l with
+  | nil => intro _ z hz; simp at hz
+  | cons w t iht =>
+    intro hn z hz
+    unfold minAbove at hn
+    cases ht : minAbove mid t with
+    | none =>
+      rw [ht] at hn; simp only at hn
+      split_ifs at hn with hw
+      rcases List.mem_cons.mp hz with rfl | hz
+      · exact hw
+      · exact iht ht z hz
+    | some b =>
+      rw [ht] at hn; simp only at hn
+      split_ifs at hn
+
+theorem minAbove_spec (mid : K) : ∀ (ys : List K) (a : K), minAbove mid ys = some a →
+    a ∈ ys ∧ mid < a ∧ ∀ y ∈ ys, mid < y → a ≤ y := by
+  intro ys
+  induction ys with
+  | nil => intro a h; simp [minAbove] at h
+  | cons y r ih =>
+    intro a h
+    unfold minAbove at h
+    cases hr : minAbove mid r with
+    | none =>
+      rw [hr] at h
+      simp only at h
+      split_ifs at h with hy
+      cases h
+      refine ⟨List.mem_cons_self, hy, ?_⟩
+      intro z hz hmz
+      rcases List.mem_cons.mp hz with rfl | hz
+      · exact le_rfl
+      · exact absurd hmz (minAbove_none mid r hr z hz)
+    | some b =>
+      rw [hr] at h
+      simp only at h
+      obtain ⟨hb1, hb2, hb3⟩ := ih b hr
+      split_ifs at h with hy hyb
+      · cases h
+        refine ⟨List.mem_cons_self, hy, ?_⟩
+        intro z hz hmz
+        rcases List.mem_cons.mp hz with rfl | hz
+        · exact le_rfl
+        · exact le_trans (le_of_lt hyb) (hb3 z hz hmz)
+      · cases h
+        refine ⟨List.mem_cons_of_mem _ hb1, hb2, ?_⟩
+        intro z hz hmz
+        rcases List.mem_cons.mp hz with rfl | hz
+        · exact not_lt.mp hyb
+        · exact hb3 z hz hmz
+      · cases h
+        refine ⟨List.mem_cons_of_mem _ hb1, hb2, ?_⟩
+        intro z hz hmz
+        rcases List.mem_cons.mp hz with rfl | hz
+        · exact absurd hmz hy
+        · exact hb3 z hz hmz
+
+/-- the selection is determined by its specification. -/
+theorem minAbove_eq_of_spec (mid : K) (ys : List K) (a : K) (h1 : a ∈ ys) (h2 : mid < a)
+    (h3 : ∀ y ∈ ys, mid < y → a ≤ y) : minAbove mid ys = some a := by
+  cases h : minAbove mid ys with
+  | none => exact absurd h2 (minAbove_none mid ys h a h1)
+  | some b =>
+    obtain ⟨hb1, hb2, hb3⟩ := minAbove_spec mid ys b h
+    exact congrArg some (le_antisymm (hb3 a h1 h2) (h3 b hb1 hb2))
+
+theorem maxBelow_none (mid : K) : ∀ (l : List K), maxBelow mid l = none → ∀ z ∈ l, ¬ z < mid := by
+  intro l
+  induction l with
+  | nil => intro _ z hz; simp at hz
+  | cons w t iht =>
+    intro hn z hz
+    unfold maxBelow at hn
+    cases ht : maxBelow mid t with
+    | none =>
+      rw [ht] at hn; simp only at hn
+      split_ifs at hn with hw
+      rcases List.mem_cons.mp hz with rfl | hz
+      · exact hw
+      · exact iht ht z hz
+    | some b =>
+      rw [ht] at hn; simp only at hn
+      split_ifs at hn
+
+theorem maxBelow_spec (mid : K) : ∀ (ys : List K) (a : K), maxBelow mid ys = some a →
+    a ∈ ys ∧ a < mid ∧ ∀ y ∈ ys, y < mid → y ≤ a := by
+  intro ys
+  induction ys with
+  | nil => intro a h; simp [maxBelow] at h
+  | cons y r ih =>
+    intro a h
+    unfold maxBelow at h
+    cases hr : maxBelow mid r with
+    | none =>
+      rw [hr] at h
+      simp only at h
+      split_ifs at h with hy
+      cases h
+      refine ⟨List.mem_cons_self, hy, ?_⟩
+      intro z hz hmz
+      rcases List.mem_cons.mp hz with rfl | hz
+      · exact le_rfl
+      · exact absurd hmz (maxBelow_none mid r hr z hz)
+    | some b =>
+      rw [hr] at h
+      simp only at h
+      obtain ⟨hb1, hb2, hb3⟩ := ih b hr
+      split_ifs at h with hy hyb
+      · cases h
+        refine ⟨List.mem_cons_self, hy, ?_⟩
+        intro z hz hmz
+        rcases List.mem_cons.mp hz with rfl | hz
+        · exact le_rfl
+        · exact le_trans (hb3 z hz hmz) (le_of_lt hyb)
+      · cases h
+        refine ⟨List.mem_cons_of_mem _ hb1, hb2, ?_⟩
+        intro z hz hmz
+        rcases List.mem_cons.mp hz with rfl | hz
+        · exact not_lt.mp hyb
+        · exact hb3 z hz hmz
+      · cases h
+        refine ⟨List.mem_cons_of_mem _ hb1, hb2, ?_⟩
+        intro z hz hmz
+        rcases List.mem_cons.mp hz with rfl | hz
+        · exact absurd hmz hy
+        · exact hb3 z hz hmz
+
+theorem maxBelow_eq_of_spec (mid : K) (ys : List K) (a : K) (h1 : a ∈ ys) (h2 : a < mid)
+    (h3 : ∀ y ∈ ys, y < mid → y ≤ a) : maxBelow mid ys = some a := by
+  cases h : maxBelow mid ys with
+  | none => exact absurd h2 (maxBelow_none mid ys h a h1)
+  | some b =>
+    obtain ⟨hb1, hb2, hb3⟩ := maxBelow_spec mid ys b h
+    exact congrArg some (le_antisymm (h3 b hb1 hb2) (hb3 a h1 h2))
+
+/-- heights of the atoms as `disregistry` sees them. -/
+theorem disreg_rows_y (m n : V3 K) : ∀ (basepos disp : List (V3 K)), basepos.length = disp.length →
+    (List.zipWith (fun p d => (⟨V3.dot p m, V3.dot p n, d⟩ : DRow K)) basepos disp).map (·.y)
+      = basepos.map (fun p => V3.dot p n) := by
+  intro basepos
+  induction basepos with
+  | nil => intro disp _; simp
+  | cons p r ih =>
+    intro disp hl
+    cases disp with
+    | nil => simp at hl
+    | cons d t =>
+      simp only [List.zipWith_cons_cons, List.map_cons, List.cons.injEq, true_and]
+      exact ih t (by simpa using hl)
+
+
+/-! ### disregistry: atomic columns and interpolation -/
+
+theorem mem_insertSorted (x y : K) : ∀ (l : List K), y ∈ insertSorted x l ↔ y = x ∨ y ∈ l := by
+  intro l
+  induction l with
+  | nil => simp [insertSorted]
+  | cons z r ih =>
+    unfold insertSorted
+    split_ifs with h1 h2
+    · simp
+    · simp only [List.mem_cons, ih]; tauto
+    · have : x = z := le_antisymm (not_lt.mp h2) (not_lt.mp h1)
+      subst this
+      simp
+
+theorem insertSorted_sorted (x : K) : ∀ (l : List K), l.Pairwise (· < ·) → (insertSorted x l).Pairwise (· < ·) := by
+  intro l
+  induction l with
+  | nil => intro _; simp [insertSorted]
+  | cons z r ih =>
+    intro hs
+    unfold insertSorted
+    split_ifs with h1 h2
+    · refine List.Pairwise.cons ?_ hs
+      intro w hw
+      rcases List.mem_cons.mp hw with rfl | hw
+      · exact h1
+      · exact lt_trans h1 (List.rel_of_pairwise_cons hs hw)
+    · refine List.Pairwise.cons ?_ (ih (List.Pairwise.of_cons hs))
+      intro w hw
+      rcases (mem_insertSorted x w r).mp hw with rfl | hw
+      · exact h2
+      · exact List.rel_of_pairwise_cons hs hw
+    · exact hs
+
+theorem sortedUnique_sorted (xs : List K) : (sortedUnique xs).Pairwise (· < ·) := by
+  unfold sortedUnique
+  induction xs with
+  | nil => simp
+  | cons x r ih => simp only [List.foldr_cons]; exact insertSorted_sorted x _ ih
+
+theorem mem_sortedUnique (xs : List K) (y : K) : y ∈ sortedUnique xs ↔ y ∈ xs := by
+  unfold sortedUnique
+  induction xs with
+  | nil => simp
+  | cons x r ih => simp only [List.foldr_cons, mem_insertSorted, ih, List.mem_cons]
+
+/-- `np.interp` at a node of a strictly increasing grid returns the node's value. -/
+theorem interpGo_node : ∀ (xr : List K) (fr : List (V3 K)) (x0 : K) (f0 : V3 K) (i : Nat) (x : K) (f : V3 K),
+    (x0 :: xr).Pairwise (· < ·) → xr.length = fr.length → xr[i]? = some x → fr[i]? = some f →
+    interpGo x x0 f0 xr fr = f := by
+  intro xr
+  induction xr with
+  | nil => intro fr x0 f0 i x f _ _ hx _; simp at hx
+  | cons x1 xt ih =>
+    intro fr x0 f0 i x f hs hl hx hf
+    cases fr with
+    | nil => simp at hl
+    | cons f1 ft =>
+      have hs' : (x1 :: xt).Pairwise (· < ·) := List.Pairwise.of_cons hs
+      cases i with
+      | zero =>
+        simp only [List.getElem?_cons_zero, Option.some.injEq] at hx hf
+        subst hx; subst hf
+        unfold interpGo
+        rw [if_neg (lt_irrefl _)]
+        cases xt with
+        | nil => cases ft <;> simp [interpGo]
+        | cons x2 xt2 =>
+          cases ft with
+          | nil => simp [interpGo]
+          | cons f2 ft2 =>
+            unfold interpGo
+            have h12 : x1 < x2 := List.rel_of_pairwise_cons hs' List.mem_cons_self
+            rw [if_pos h12]
+            simp only [sub_self, zero_div]
+            cases f1; cases f2
+            show V3.add _ _ = _
+            simp [V3.smul, V3.add]
+      | succ j =>
+        simp only [List.getElem?_cons_succ] at hx hf
+        have hmem : x ∈ xt := List.mem_of_getElem? hx
+        have h1x : x1 < x := List.rel_of_pairwise_cons hs' hmem
+        unfold interpGo
+        rw [if_neg (not_lt.mpr (le_of_lt h1x))]
+        exact ih ft x1 f1 j x f hs' (by simpa using hl) hx hf
+
+theorem interp_node (xp : List K) (fp : List (V3 K)) (i : Nat) (x : K) (f : V3 K)
+    (hs : xp.Pairwise (· < ·)) (hl : xp.length = fp.length) (hx : xp[i]? = some x) (hf : fp[i]? = some f) :
+    interp xp fp x = f := by
+  cases xp with
+  | nil => simp at hx
+  | cons x0 xr =>
+    cases fp with
+    | nil => simp at hl
+    | cons f0 fr =>
+      unfold interp
+      cases i with
+      | zero =>
+        simp only [List.getElem?_cons_zero, Option.some.injEq] at hx hf
+        subst hx; subst hf
+        simp
+      | succ j =>
+        simp only [List.getElem?_cons_succ] at hx hf
+        have h0x : x0 < x := List.rel_of_pairwise_cons hs (List.mem_of_getElem? hx)
+        simp only [if_neg (not_le.mpr h0x)]
+        exact interpGo_node xr fr x0 f0 j x f hs (by simpa using hl) hx hf
+
+/-- the rows `disregistry` works on, for lists of equal length. -/
+def drows (m n : V3 K) (basepos disp : List (V3 K)) : List (DRow K) :=
+  List.zipWith (fun p d => (⟨V3.dot p m, V3.dot p n, d⟩ : DRow K)) basepos disp
+
+theorem columnMeans_getElem? (atol rtol : K) (pl : List (DRow K)) (ux : List K) (i : Nat) (x : K)
+    (h : ux[i]? = some x) :
+    (columnMeans atol rtol pl ux)[i]? = some (meanV ((pl.filter fun r => isclose atol rtol r.x x).map (·.d))) := by
+  simp [columnMeans, List.getElem?_map, h]
+
 end Atomman.C13
